@@ -3,6 +3,7 @@ package props
 import (
 	"fmt"
 	"go/token"
+	"sort"
 
 	"golang.org/x/tools/go/ssa"
 
@@ -12,11 +13,11 @@ import (
 
 func init() {
 	register(&Property{
-		ID:      "C17",
-		Engines: []string{"cfg", "decide"},
+		ID:          "C17",
+		Engines:     []string{"cfg", "decide"},
 		Explanation: "Write-buffer bound, structural part: in write/writev the overflow test on the whole input size dominates every kernel write and every enqueue and its true edge returns the overflow error (O1); overflow(n) is exactly Max>0 && left+n>Max, read off its branch conditions (O2); the enqueue function adds len(buf) to the counter once on every path and flush subtracts the same SSA value by which it advances the entry offset (O3); no other function writes the counter (O4). The overflow error is a leaf error (O5).",
-		NotCovered: "the numeric invariant left = sum of unsent bytes over histories; teardown dropping queued bytes; Sendfile ranges (not held in memory, not counted by design)",
-		Run:        runC17,
+		NotCovered:  "the numeric invariant left = sum of unsent bytes over histories; teardown dropping queued bytes; Sendfile ranges (not held in memory, not counted by design)",
+		Run:         runC17,
 	})
 }
 
@@ -25,6 +26,8 @@ func runC17(c *Ctx) {
 	c.Rule("C17.O2", "E8", "overflow(n) == (MaxWriteBufferSize > 0 && left+n > MaxWriteBufferSize), decided on the formula extracted from the branch conditions", 1)
 	c.Rule("C17.O3", "E4", "enqueue adds len(buf) to left exactly once on every path; flush subtracts the syscall count n by which it advances entry.offset, under n>0", 2)
 	c.Rule("C17.O5", "E9", "the overflow error is a leaf error (errors.New): it matches neither EAGAIN nor EINTR, so Write/Writev treat it as fatal and close the connection", 1)
+	c.Rule("C17.O6", "E5", "the backlog counter is read only by overflow() and by its own += / -= updates: it counts buffered bytes, not queue entries (file ranges are not counted), so it is never a test of queue emptiness", 1)
+	c17Readers(c, "C17.O6")
 	c.Rule("C17.O4", "E5", "the only writers of Conn.left are the buffer-enqueue function and flush", 1)
 	c17OverflowLeaf(c)
 
@@ -359,4 +362,31 @@ func c17OverflowLeaf(c *Ctx) {
 		}
 	}
 	c.Cond(bad == "", "C17.O5", "nbio.ErrOverflow is a leaf error", c.FnPos(initFn), "errors.New", bad)
+}
+
+// c17Readers: who reads Conn.left.
+func c17Readers(c *Ctx, ob string) {
+	readers := map[string]bool{}
+	for _, f := range c.nbioFuncs() {
+		for _, a := range c.P.FieldAccesses(f, func(k string) bool { return k == "nbio.Conn.left" }) {
+			if a.Write || a.AddrTaken {
+				continue
+			}
+			readers[c.P.FuncName(ir.Outermost(f))] = true
+		}
+	}
+	core := c.Core()
+	allowed := map[string]bool{"(*nbio.Conn).overflow": true, "(*nbio.Conn).flush": true}
+	if core.EnqueueBuf != nil {
+		allowed[c.P.FuncName(core.EnqueueBuf)] = true
+	}
+	var extra []string
+	for r := range readers {
+		if !allowed[r] {
+			extra = append(extra, r)
+		}
+	}
+	sort.Strings(extra)
+	c.Cond(len(extra) == 0 && len(readers) > 0, ob, "readers of nbio.Conn.left", "", fmt.Sprintf("%v", sortedKeys(readers)),
+		fmt.Sprintf("Conn.left is read by %v: it counts buffered bytes only (a queued Sendfile range adds nothing to it), so using it to decide whether something is queued sends data around a queued file, skips a re-arm, or skips the release of queued entries", extra))
 }
